@@ -18,6 +18,38 @@ def rel(a, b):
     return maxabs(np.asarray(a) - np.asarray(b)) / (1 + maxabs(b))
 
 
+def check_conversions_large(run, ex):
+    """The documented formula gamma_j = alpha_j N^j 2^(j-1) D (gamma_0 = alpha_0) for fine grids and high orders, where N^j leaves the
+    range of 32- and 64-bit integers (exact rationals in Python; the TLC table MC_Convert covers N <= 64, orders <= 6)."""
+    from fractions import Fraction
+    G = ex.stepper.generic
+    for D in (1, 2, 3):
+        for N in (220, 256, 1500, 4096):
+            for J in (4, 6, 8):
+                alpha = [Fraction(-1) ** (j // 2 + 1) * Fraction(3, 7) / Fraction(N) ** j for j in range(J + 1)]
+                gamma = [alpha[0]] + [alpha[j] * N ** j * 2 ** (j - 1) * D for j in range(1, J + 1)]
+                run.case(("convert-large", D, N, J))
+                key = {"kind": "conversion", "order": J, "D": D, "what": "fine grid / high order"}
+                rc = G.reduce_normalized_coefficients_to_difficulty(tuple(float(a) for a in alpha), num_spatial_dims=D, num_points=N)
+                ec = G.extract_normalized_coefficients_from_difficulty(tuple(float(g) for g in gamma), num_spatial_dims=D, num_points=N)
+                for j in range(J + 1):
+                    if not abs(float(rc[j]) - float(gamma[j])) <= 1e-11 * abs(float(gamma[j])):
+                        run.violation(dict(key, symbol="reduce_normalized_coefficients_to_difficulty"), {"N": N, "j": j, "got": float(rc[j]), "want": float(gamma[j])})
+                        break
+                    if not abs(float(ec[j]) - float(alpha[j])) <= 1e-11 * abs(float(alpha[j])):
+                        run.violation(dict(key, symbol="extract_normalized_coefficients_from_difficulty"), {"N": N, "j": j, "got": float(ec[j]), "want": float(alpha[j])})
+                        break
+            # the dissipative difficulty stepper stays dissipative on fine grids (even orders: the sign of the difficulty decides)
+            if D == 1:
+                for order, diff in ((2, 1.0), (4, -1.0), (6, 1.0), (8, -1.0)):
+                    st = G.DifficultyLinearStepperSimple(1, N, difficulty=diff, order=order)
+                    m = np.asarray(st.step_fourier(np.ones((1, N // 2 + 1), dtype=complex)))[0]
+                    run.case(("difficulty-large", N, order))
+                    if not (np.all(np.isfinite(m)) and np.all(np.abs(m) <= 1 + 1e-12) and abs(abs(m[N // 2]) - np.exp(-abs(diff) * (np.pi) ** order / 2 ** (order - 1))) < 1e-9):
+                        run.violation({"kind": "conversion", "order": order, "D": 1, "what": "DifficultyLinearStepperSimple on a fine grid"},
+                                      {"N": N, "max_modulus": float(np.max(np.abs(m))), "nyquist_modulus": float(abs(m[N // 2]))})
+
+
 def check_conversions(run, states, ex):
     G = ex.stepper.generic
     nsamp = 0
@@ -249,6 +281,7 @@ def run(tier: str, seed: int) -> int:
     states = list(iter_dump_states(res.dump))
     tlc.cleanup(res)
     check_conversions(run_, states, ex)
+    check_conversions_large(run_, ex)
     run_.traces += len(states)
     check_steppers(run_, ex, jnp, rng, tier)
     run_.rule = ("conversion cases: every TLC state of MC_Convert (order, coefficient, L, dt, D, N, M) against all normalize/denormalize/reduce/extract "
